@@ -12,7 +12,7 @@ import (
 func init() {
 	register(&Prop{
 		ID:          "C01",
-		Explanation: "Decides the control-flow skeleton of 'served only if credential or bypass': every protected sink (load of the upstream handler, the 202 writer of the auth-only endpoint, every success write of the user-info endpoint) is reached only on paths where getAuthenticatedSession returned a nil error; every nil-error return of getAuthenticatedSession has the bypass predicate true or (session non-nil, e-mail empty or validated, Authorize true); IsAllowedRequest is true only through preflight&&OPTIONS, isAllowedRoute or isTrustedIP and is called only from getAuthenticatedSession; RequestScope.Session is written only by the three session loaders and only with result #0 of their verified getter; each getter returns non-nil only after its verification call succeeded; cookie-store Load and ticket decoding succeed only behind encryption.Validate ok, which needs checkSignature true, which needs hmac.Equal; the route table wraps every session-consuming handler in sessionChain. Added during the build: the skip-auth decision consumes only the guarded, query-free request path (R9, shared with C15.R1); the trusted-IP set inserts into the same-mask map it looks up and the htpasswd validator answers true only by comparing against the entry it read (R10, shared with C15.R5 / C20.R2). Round 3: issuer verification of bearer-token verifiers is switched off only by the operator's option (R11); without a header parser the client address is net.ParseIP(SplitHostPort(req.RemoteAddr)#0) and nothing else (R12). Round 4: a bearer token verifies only with go-oidc's verdict and the audience membership check on the first configured audience claim present (R13, shared with C04.R1); a Basic credential is split at its first colon only (R14).",
+		Explanation: "Decides the control-flow skeleton of 'served only if credential or bypass': every protected sink (load of the upstream handler, the 202 writer of the auth-only endpoint, every success write of the user-info endpoint) is reached only on paths where getAuthenticatedSession returned a nil error; every nil-error return of getAuthenticatedSession has the bypass predicate true or (session non-nil, e-mail empty or validated, Authorize true); IsAllowedRequest is true only through preflight&&OPTIONS, isAllowedRoute or isTrustedIP and is called only from getAuthenticatedSession; RequestScope.Session is written only by the three session loaders and only with result #0 of their verified getter; each getter returns non-nil only after its verification call succeeded; cookie-store Load and ticket decoding succeed only behind encryption.Validate ok, which needs checkSignature true, which needs hmac.Equal; the route table wraps every session-consuming handler in sessionChain. Added during the build: the skip-auth decision consumes only the guarded, query-free request path (R9, shared with C15.R1); the trusted-IP set inserts into the same-mask map it looks up and the htpasswd validator answers true only by comparing against the entry it read (R10, shared with C15.R5 / C20.R2). Round 3: issuer verification of bearer-token verifiers is switched off only by the operator's option (R11); without a header parser the client address is net.ParseIP(SplitHostPort(req.RemoteAddr)#0) and nothing else (R12). Round 4: a bearer token verifies only with go-oidc's verdict and the audience membership check on the first configured audience claim present (R13, shared with C04.R1); a Basic credential is split at its first colon only (R14). Round 7: request handling keeps no state of its own between requests — no store, map update, in-place builtin, atomic/sync.Map write or pointer-receiver library call (singleflight, caches) reached from ServeHTTP targets a package-level variable, an object built at start-up, or a constructor variable captured by the handler it returned, declared in the packages implementing this property (RS; a class-wide who-may-write rule with zero instances today: a correct memoisation would be reported until reviewed). A refresh that adopts the new ID token adopts its e-mail, user, groups and preferred user name on the same path (R15, shared with C12.R9).",
 		NotDecided:  "that a valid credential always verifies (values), correctness of HMAC/AES (trusted), string semantics of validators.",
 		Run:         runC01,
 	})
@@ -68,6 +68,8 @@ func runC01(c *Ctx) {
 	r.Rule("R11-bearer-verifier-options", "issuer verification for bearer-token verifiers is switched off only by the operator's explicit option, in the options and in every oidc.Config built from them (shared with C04.R2)", 4)
 	r.Rule("R12-remote-address", "without a header parser the client address is the host part of RemoteAddr that net.ParseIP accepted; anything else is an error, never a substitute address", 2)
 	r.Rule("R13-bearer-verifier", "a bearer token verifies only with go-oidc ok and the audience membership check on the first configured audience claim present (shared with C04.R1)", 5)
+	r.Rule("R15-refresh-adopts-identity", "a refresh that adopts the new ID token adopts its e-mail, user, groups and preferred user name with it, so authorisation is never decided on the previous token's groups (shared with C12.R9, round 7)", 3)
+	runC12R9(c, "R15-refresh-adopts-identity")
 	r.Rule("R14-basic-credential-split", "a Basic credential is split at the first colon only", 1)
 	r.Rule("R9-bypass-input", "the skip-auth decision consumes only the guarded, query-free request path (shared with C15.R1)", 1)
 	r.Rule("R8-route-table", "every route whose handler consumes the session is registered through sessionChain; preAuthChain is installed on the root router", 9)
